@@ -184,7 +184,7 @@ def pipeline(ctx, genmodule, suite, judgemodule, judgecfg, parts, unit, sample, 
                     if cc.get("n") == "leaf" and (cc.get("x") or {}).get("a") == "bool" and (cc.get("x") or {}).get("b") is True:
                         out.write(json.dumps(dict(c, nowhere=True), ensure_ascii=False) + "\n")
                         nv += 1
-                    if (not ctx.quick and i % 2 == 0) or i % 5 == (ctx.seed + 1) % 5:
+                    if (not ctx.quick and i % 3 == 0) or i % 5 == (ctx.seed + 1) % 5:
                         out.write(json.dumps(dict(c, talias=True), ensure_ascii=False) + "\n")
                         nv += 1
             ofv = ctx.path("obs_%s_var.ndjson" % names)
